@@ -6,6 +6,8 @@ import Verif.C01.Lexer
 import Verif.C01.LexSpec
 import Verif.C01.IxLexer
 import Verif.C01.LayoutSpec
+import Verif.C01.Docs
+import Verif.C01.IxLayout
 open Lean Verif.Proto Verif.Codec Verif.C01
 
 namespace Verif.C01.Driver
@@ -149,6 +151,63 @@ def ofSemI (j : Json) : Except String Ix.SemI := do
     | _ => throw "bad vprops")
   pure { preds, vprops, sub := ← ofStrLists (← j.getObjVal? "sub"), psub := ← ofStrLists (← j.getObjVal? "psub") }
 
+/-- the items of a list-API request (`ms`; absent in old replays: no list part). -/
+def getMs (j : Json) : Except String (Option (List MRS)) :=
+  match j.getObjVal? "ms" with
+  | .ok v => do pure (some (← (← v.getArr?).toList.mapM ofMRS))
+  | .error _ => pure none
+
+def withList (base : Json) (l : Option Json) : Json :=
+  match l with
+  | none => base
+  | some l => base.setObjVal! "list" l
+
+/-- dumps/loads (SimpleMRS): the tokens of all items in a row, the single-line text, the list decoder. -/
+def simpleList (o : Opts) (ms : List MRS) : Json :=
+  if !(ms.all (simpleEncodable o)) then jErr "ValueError" else
+  let ts := ms.flatMap (toks o)
+  Json.mkObj [("toks", jToks ts), ("text", cps (Lex.render ts)),
+              ("textind", cps (Lex.renderIndMany o ms)),
+              ("dec", match parseMany (ts.length + 1) ts with
+                      | .ok ds => jList jMRS ds
+                      | .error e => jErr (eName e))]
+
+def jsonList (o : Opts) (ms : List MRS) : Json :=
+  if !(ms.all jsonEncodable) then jErr "ValueError" else
+  let d := toDictList o ms
+  Json.mkObj [("dict", jJ d), ("dec", match fromDictList d with
+                                      | some rs => jList jMRS rs
+                                      | none => jErr "Exception")]
+
+def mrxList (o : Opts) (ms : List MRS) : Json :=
+  if !(ms.all mrxEncodable) then jErr "ValueError" else
+  let x := toXmlList o ms
+  Json.mkObj [("xml", jXml x), ("dec", match ofXmlList x with
+                                       | some rs => jList jMRS rs
+                                       | none => jErr "Exception"),
+              -- `loads` of a single-item text (`encode`): the root is the `mrs` element itself
+              ("dec1", match ms with
+                       | m :: _ => (match ofXmlList (toXml o m) with
+                                    | some rs => jList jMRS rs
+                                    | none => jErr "Exception")
+                       | [] => Json.null)]
+
+def indexedList (semi : Ix.SemI) (o : Opts) (n : Nat) (ms : List MRS) : Json :=
+  match ms.mapM (Ix.toksIx semi o) with
+  | .error e => jErr (eiName e)
+  | .ok tss =>
+    let ts := tss.flatten
+    Json.mkObj [("toks", jToksI ts), ("text", cps (Lex.joinStr [' '] (tss.map IxLex.renderIx))),
+                ("textind", cps (IxLex.renderIxInd 2 ts)), ("textindn", cps (IxLex.renderIxInd n ts)),
+                ("dec", match Ix.parseManyIx semi (ts.length + 1) ts with
+                        | .ok ds => jList jMRS ds
+                        | .error e => jErr (eiName e))]
+
+def firstM (j : Json) (ms : Option (List MRS)) : Except String (Option MRS) :=
+  match j.getObjVal? "m" with
+  | .ok v => do pure (some (← ofMRS v))
+  | .error _ => pure (ms.bind List.head?)
+
 def getOpts (j : Json) : Except String Opts := do
   pure { properties := ← getBool j "props", lnk := ← getBool j "lnk" }
 
@@ -156,15 +215,19 @@ def handle (j : Json) : Except String Json := do
   let op ← getStr j "op"
   match op with
   | "simple" => do
-    let m ← ofMRS (← j.getObjVal? "m")
+    let ms ← getMs j
     let o ← getOpts j
-    if !simpleEncodable o m then pure (jErr "ValueError") else
+    let l := ms.map (simpleList o)
+    match (← firstM j ms) with
+    | none => pure (withList (Json.mkObj [("empty", Json.bool true)]) l)
+    | some m =>
+    if !simpleEncodable o m then pure (withList (jErr "ValueError") l) else
     let ts := toks o m
     match parse ts with
-    | .error e => pure (Json.mkObj [("toks", jToks ts), ("text", cps (Lex.render ts)), ("textind", cps (Lex.renderInd o m)), ("dec", jErr (eName e))])
+    | .error e => pure (withList (Json.mkObj [("toks", jToks ts), ("text", cps (Lex.render ts)), ("textind", cps (Lex.renderInd o m)), ("dec", jErr (eName e))]) l)
     | .ok (d, rest) =>
-      pure (Json.mkObj [("toks", jToks ts), ("text", cps (Lex.render ts)), ("textind", cps (Lex.renderInd o m)), ("dec", jMRS d), ("rest", jNat rest.length),
-                        ("retoks", if simpleEncodable o d then jToks (toks o d) else jErr "ValueError")])
+      pure (withList (Json.mkObj [("toks", jToks ts), ("text", cps (Lex.render ts)), ("textind", cps (Lex.renderInd o m)), ("dec", jMRS d), ("rest", jNat rest.length),
+                        ("retoks", if simpleEncodable o d then jToks (toks o d) else jErr "ValueError")]) l)
   | "parse" => do
     let ts ← (← getArr j "toks").mapM ofTok
     let one := match parse ts with
@@ -175,37 +238,54 @@ def handle (j : Json) : Except String Json := do
       | .error e => jErr (eName e)
     pure (Json.mkObj [("one", one), ("many", many)])
   | "json" => do
-    let m ← ofMRS (← j.getObjVal? "m")
+    let ms ← getMs j
     let o ← getOpts j
-    if !jsonEncodable m then pure (jErr "ValueError") else
+    let l := ms.map (jsonList o)
+    match (← firstM j ms) with
+    | none => pure (withList (Json.mkObj [("empty", Json.bool true)]) l)
+    | some m =>
+    if !jsonEncodable m then pure (withList (jErr "ValueError") l) else
     let d := toDict o m
     match fromDict d with
-    | none => pure (Json.mkObj [("dict", jJ d), ("dec", jErr "Exception")])
-    | some r => pure (Json.mkObj [("dict", jJ d), ("dec", jMRS r),
-                                   ("redict", if jsonEncodable r then jJ (toDict o r) else jErr "ValueError")])
+    | none => pure (withList (Json.mkObj [("dict", jJ d), ("dec", jErr "Exception")]) l)
+    | some r => pure (withList (Json.mkObj [("dict", jJ d), ("dec", jMRS r),
+                                   ("redict", if jsonEncodable r then jJ (toDict o r) else jErr "ValueError")]) l)
   | "mrx" => do
-    let m ← ofMRS (← j.getObjVal? "m")
+    let ms ← getMs j
     let o ← getOpts j
-    if !mrxEncodable m then pure (jErr "ValueError") else
+    let l := ms.map (mrxList o)
+    match (← firstM j ms) with
+    | none => pure (withList (Json.mkObj [("empty", Json.bool true)]) l)
+    | some m =>
+    if !mrxEncodable m then pure (withList (jErr "ValueError") l) else
     let x := toXml o m
     match ofXml x with
-    | none => pure (Json.mkObj [("xml", jXml x), ("dec", jErr "Exception")])
-    | some r => pure (Json.mkObj [("xml", jXml x), ("dec", jMRS r),
-                                   ("rexml", if mrxEncodable r then jXml (toXml o r) else jErr "ValueError")])
+    | none => pure (withList (Json.mkObj [("xml", jXml x), ("dec", jErr "Exception")]) l)
+    | some r => pure (withList (Json.mkObj [("xml", jXml x), ("dec", jMRS r),
+                                   ("rexml", if mrxEncodable r then jXml (toXml o r) else jErr "ValueError")]) l)
   | "indexed" => do
-    let m ← ofMRS (← j.getObjVal? "m")
+    let ms ← getMs j
     let o ← getOpts j
     let semi ← ofSemI (← j.getObjVal? "semi")
+    let n := (match j.getObjVal? "n" with | .ok v => (v.getNat?.toOption.getD 3) | .error _ => 3)
+    let l := ms.map (indexedList semi o n)
+    match (← firstM j ms) with
+    | none => pure (withList (Json.mkObj [("empty", Json.bool true)]) l)
+    | some m =>
     match Ix.toksIx semi o m with
-    | .error e => pure (jErr (eiName e))
+    | .error e => pure (withList (jErr (eiName e)) l)
     | .ok ts =>
       match Ix.parseIx semi ts with
-      | .error e => pure (Json.mkObj [("toks", jToksI ts), ("text", cps (IxLex.renderIx ts)), ("dec", jErr (eiName e))])
+      | .error e => pure (withList (Json.mkObj [("toks", jToksI ts), ("text", cps (IxLex.renderIx ts)),
+                                               ("textind", cps (IxLex.renderIxInd 2 ts)), ("textindn", cps (IxLex.renderIxInd n ts)),
+                                               ("dec", jErr (eiName e))]) l)
       | .ok (d, rest) =>
-        pure (Json.mkObj [("toks", jToksI ts), ("text", cps (IxLex.renderIx ts)), ("dec", jMRS d), ("rest", jNat rest.length),
+        pure (withList (Json.mkObj [("toks", jToksI ts), ("text", cps (IxLex.renderIx ts)),
+                          ("textind", cps (IxLex.renderIxInd 2 ts)), ("textindn", cps (IxLex.renderIxInd n ts)),
+                          ("dec", jMRS d), ("rest", jNat rest.length),
                           ("retoks", match Ix.toksIx semi o d with
                                      | .ok ts2 => jToksI ts2
-                                     | .error e => jErr (eiName e))])
+                                     | .error e => jErr (eiName e))]) l)
   | "lexix" => do
     let s ← getCps j "s"
     match IxLex.lexIx s with
